@@ -9,7 +9,10 @@ picks which enabled thread runs next (`chooser`), so a schedule is a list of thr
 
  * a blocking operation whose condition does not hold makes the thread *disabled*;
  * an operation with a timeout takes its timeout branch only when no thread at all is enabled
-   (expiry at quiescence);
+   (expiry at quiescence); a wait with a ZERO timeout (`join(0)`, `result(0)`: a poll) never blocks: its thread is
+   always enabled and the step takes the timeout branch exactly when the awaited condition does not hold;
+ * `Thread.start()` raises RuntimeError for the start indices listed in `Scheduler.fail_starts` (environment choice,
+   part of the program, so replayable); the step in which it happened is marked (`Step.fail`);
  * no enabled thread and no pending timeout: the run is reported as a DEADLOCK (never hangs; a
    real-time watchdog is the backstop);
  * unmanaged threads (the controller) pass straight through every shim operation.
@@ -32,13 +35,21 @@ class Abort(BaseException):
 
 
 class Op(object):
-    __slots__ = ("label", "enabled", "can_timeout", "arg")
+    __slots__ = ("label", "enabled", "can_timeout", "arg", "poll")
 
-    def __init__(self, label, enabled, can_timeout, arg):
+    def __init__(self, label, enabled, can_timeout, arg, poll=False):
         self.label = label
         self.enabled = enabled
         self.can_timeout = can_timeout
         self.arg = arg
+        self.poll = poll  # zero time-out: never blocks, times out at once when the condition does not hold
+
+    def is_enabled(self):
+        return self.poll or self.enabled is None or self.enabled()
+
+    def blocked(self):
+        """The thread cannot proceed now and has no zero time-out (it may have a positive one)."""
+        return not self.is_enabled()
 
 
 class MThread(object):
@@ -61,7 +72,7 @@ class MThread(object):
 
 
 class Step(object):
-    __slots__ = ("role", "label", "timeout", "res", "arg", "proj", "index")
+    __slots__ = ("role", "label", "timeout", "res", "arg", "proj", "index", "fail")
 
     def __init__(self, index, role, label, timeout, arg):
         self.index = index
@@ -71,9 +82,10 @@ class Step(object):
         self.arg = arg
         self.res = None
         self.proj = None
+        self.fail = False  # a Thread.start() raised during this step
 
     def token(self):
-        return "%s:%s%s" % (self.role, self.label, ":timeout" if self.timeout else "")
+        return "%s:%s%s%s" % (self.role, self.label, ":timeout" if self.timeout else "", ":startfail" if self.fail else "")
 
 
 class Scheduler(object):
@@ -89,6 +101,8 @@ class Scheduler(object):
         self.current = None
         self.last = None
         self.n_workers = 0
+        self.n_starts = 0  # Thread.start() calls so far (failed ones included)
+        self.fail_starts = frozenset()  # indices of the Thread.start() calls that raise RuntimeError
         self.after_step = None  # callback(step)
         self.on_quiescent = None  # callback()
         self.status = None
@@ -127,7 +141,7 @@ class Scheduler(object):
             raise RuntimeError("managed thread %s did not reach a yield point" % role)
         return t
 
-    def yield_op(self, label, enabled=None, can_timeout=False, arg=None):
+    def yield_op(self, label, enabled=None, can_timeout=False, arg=None, poll=False):
         """
         Called by shim operations before they act.  Returns True when the operation must take its
         timeout branch.  Unmanaged callers return at once.
@@ -137,7 +151,7 @@ class Scheduler(object):
             return False
         if self.aborting:
             raise Abort()
-        t.pending = Op(label, enabled, can_timeout, arg)
+        t.pending = Op(label, enabled, can_timeout, arg, poll)
         t.timed_out = False
         if t.booting:
             t.booting = False
@@ -159,7 +173,7 @@ class Scheduler(object):
         return [t for t in self.threads if not t.dead]
 
     def enabled_threads(self):
-        return [t for t in self.threads if not t.dead and (t.pending.enabled is None or t.pending.enabled())]
+        return [t for t in self.threads if not t.dead and t.pending.is_enabled()]
 
     def run(self, until=None):
         """
@@ -174,7 +188,7 @@ class Scheduler(object):
             if not live:
                 self.status = "done"
                 return self.status
-            en = [t for t in live if t.pending.enabled is None or t.pending.enabled()]
+            en = [t for t in live if t.pending.is_enabled()]
             tmo = False
             if not en:
                 if self.on_quiescent is not None:
@@ -192,11 +206,13 @@ class Scheduler(object):
                 self.status = "steplimit"
                 return self.status
             t = self.chooser.choose(self, en, tmo)
-            st = Step(len(self.trace), t.role, t.pending.label, tmo, t.pending.arg)
+            # a poll takes its time-out branch exactly when the awaited condition does not hold now
+            step_tmo = tmo or (t.pending.poll and t.pending.enabled is not None and not t.pending.enabled())
+            st = Step(len(self.trace), t.role, t.pending.label, step_tmo, t.pending.arg)
             self.trace.append(st)
             self.last = st
             self.current = t
-            t.timed_out = tmo
+            t.timed_out = step_tmo
             if tmo:
                 t.n_timeouts += 1
             t.sem.release()
@@ -259,9 +275,18 @@ class SEvent(object):
     def wait(self, timeout=None):
         if self._s.me() is None:
             return self._flag
-        to = self._s.yield_op(self.kind + ".wait", enabled=lambda: self._flag, can_timeout=timeout is not None)
+        to = self._s.yield_op(self.kind + ".wait", enabled=lambda: self._flag, can_timeout=timeout is not None,
+                              poll=_is_zero(timeout))
         self._s.note(not to)
         return not to and self._flag
+
+
+def _is_zero(timeout):
+    """A zero (or negative) time-out: the wait is a poll."""
+    try:
+        return timeout is not None and timeout <= 0
+    except TypeError:
+        return False
 
 
 class SRLock(object):
@@ -348,6 +373,13 @@ class SThread(object):
 
     def start(self):
         s = self._s
+        idx = s.n_starts
+        s.n_starts += 1
+        if idx in s.fail_starts:
+            # environment: the OS refuses a new thread (what CPython reports as RuntimeError("can't start new thread"))
+            if s.last is not None and s.me() is s.current:
+                s.last.fail = True
+            raise RuntimeError("can't start new thread")
         self.role = "w%d" % s.n_workers
         s.n_workers += 1
         self.m = s.spawn(self.role, lambda: self._target(*self._args, **self._kwargs), shim=self)
@@ -397,7 +429,8 @@ class SCondition(object):
     def wait(self, timeout=None):
         w = _Waiter()
         self.waiters.append(w)
-        to = self._s.yield_op("cond.wait", enabled=lambda: w.notified, can_timeout=timeout is not None)
+        to = self._s.yield_op("cond.wait", enabled=lambda: w.notified, can_timeout=timeout is not None,
+                              poll=_is_zero(timeout))
         self.waiters = [x for x in self.waiters if x is not w]
         return not to
 
